@@ -10,9 +10,9 @@ import (
 	"verif/harness/refmatch"
 )
 
-func ok00(c byte) bool    { return c == 0 }
-func okLt80(c byte) bool  { return c < 0x80 }
-func okGe80(c byte) bool  { return c >= 0x80 }
+func ok00(c byte) bool   { return c == 0 }
+func okLt80(c byte) bool { return c < 0x80 }
+func okGe80(c byte) bool { return c >= 0x80 }
 func okIs(v ...byte) func(byte) bool {
 	return func(c byte) bool {
 		for _, x := range v {
